@@ -146,6 +146,7 @@ func opKey(op *Op, extra string) string {
 	c := *op
 	c.UID = 0
 	c.Role = ""
+	c.Fault = nil // the oracle never injects the fault
 	b, _ := json.Marshal(&c)
 	return string(b) + extra
 }
@@ -192,10 +193,15 @@ func computeOracle(op *Op, ll []*LLValidator, variant string) Outcome {
 			o.Recycle = false
 		}
 	}
-	// the oracle's spec validations share one process-wide meta-schema object (never reset: it only saves the 0.25 s of
-	// lazy $ref expansion per validation; the subject's own object starts unexpanded in every run)
-	if oracleMeta == nil {
-		oracleMeta = spec.MustLoadSwagger20Schema()
+	// the oracle's spec validations share a meta-schema object for a few validations at a time (it saves the 0.25 s of
+	// lazy $ref expansion per validation). Not for long: every validation expands the object a little further in place
+	// and it grows without bound - measured on the real code: re-validating one loaded document 90 times takes its own
+	// meta-schema from 0.47 MB to 2 MB and a validation from 0.15 s to 3 s, accelerating - so it is renewed regularly.
+	if oracleMeta == nil || oracleMetaUses >= metaRenewAfter {
+		oracleMeta, oracleMetaUses = spec.MustLoadSwagger20Schema(), 0
+	}
+	if op.Kind == KSpec && op.SharedMeta {
+		oracleMetaUses++
 	}
 	env := &Env{meta: oracleMeta}
 	switch op.Kind {
@@ -218,7 +224,13 @@ func computeOracle(op *Op, ll []*LLValidator, variant string) Outcome {
 	return env.Exec(&o, ctx)
 }
 
-var oracleMeta *spec.Schema
+var (
+	oracleMeta     *spec.Schema
+	oracleMetaUses int
+)
+
+// metaRenewAfter: a shared Swagger meta-schema object serves this many validations, then a new one is loaded.
+const metaRenewAfter = 8
 
 var iterBase, iterPermBase uint64
 
@@ -409,6 +421,8 @@ func runHistory(sc *Scenario, oc *oracleCache, keepLog bool, compareNR bool) *Ru
 	}
 	rep.probe("double-put", int(sim.Stats.DoublePuts))
 	rep.probe("dual-owner", int(sim.Stats.DualOwner))
+	rep.fault("same-schema-object-validated-again", env.schemaReuses)
+	rep.fault("same-loaded-document-validated-again", env.docReuses)
 	rep.NonTrivial = sim.Stats.ForeignRecycles > 0
 	finishReport(rep, sim, kinds)
 	return rep
